@@ -433,7 +433,85 @@ Proof.
     cbn [is_empty]. rewrite <- !app_assoc. reflexivity.
 Qed.
 
+(* ================================================================== the dollar-paren sequence *)
+(** a match of the finder pattern contains the two-character sequence dollar, open paren *)
+Fixpoint has_dollar_paren (s : str) : bool :=
+  match s with
+  | a :: ((b :: _) as r) => ((a =? 36) && (b =? 40)) || has_dollar_paren r
+  | _ => false
+  end.
+
+Lemma has_dollar_paren_cons2 (a b : N) (s : list N) :
+  has_dollar_paren (a :: b :: s) = ((a =? 36) && (b =? 40)) || has_dollar_paren (b :: s).
+Proof. reflexivity. Qed.
+
+Lemma has_dollar_paren_app a b : has_dollar_paren (a ++ 36 :: 40 :: b) = true.
+Proof.
+  induction a as [|x a IH].
+  - reflexivity.
+  - cbn [app]. destruct (a ++ 36 :: 40 :: b) as [|c l] eqn:E.
+    + destruct a; discriminate.
+    + rewrite has_dollar_paren_cons2. rewrite IH. apply orb_true_r.
+Qed.
+
+Lemma has_dollar_paren_false_neq s :
+  has_dollar_paren s = false -> forall a b, s <> a ++ 36 :: 40 :: b.
+Proof. intros H a b E. subst s. rewrite has_dollar_paren_app in H. discriminate. Qed.
+
+Lemma in_cs_single (c x : N) : in_cs false [(c, c)] x = true -> x = c.
+Proof.
+  unfold in_cs. cbn [existsb fst snd]. rewrite xorb_false_l, orb_false_r. intros H.
+  apply andb_true_iff in H as [A B]. apply N.leb_le in A, B. lia.
+Qed.
+
+Lemma chr_single_inv (c : N) m : Matches (Chr false [(c, c)]) m -> m = [c].
+Proof. intros H. inversion H; subst. f_equal. apply in_cs_single. assumption. Qed.
+
+Lemma dollar_cmd_search_inv s :
+  rx_search rx_dollar_cmd s = true -> exists a b, s = a ++ 36 :: 40 :: b.
+Proof.
+  intros H. unfold rx_search in H. apply matchb_spec in H.
+  unfold rx_full, rx_dollar_cmd in H. cbn [rx_ab rx_ae rx_re] in H.
+  apply cat_inv in H as (s1 & s2 & -> & _ & H).
+  apply cat_inv in H as (s3 & s4 & -> & H & _).
+  apply cat_inv in H as (d & r & -> & Hd & H).
+  apply cat_inv in H as (p & r' & -> & Hp & _).
+  apply chr_single_inv in Hd. apply chr_single_inv in Hp. subst d p.
+  exists s1, (r' ++ s4). cbn [app]. reflexivity.
+Qed.
+
+Lemma should_do_needs_dollar_paren s : has_dollar_paren s = false -> should_do_dollar s = false.
+Proof.
+  intros H. unfold should_do_dollar.
+  destruct (rx_search rx_dollar_cmd s) eqn:E; [|reflexivity].
+  apply dollar_cmd_search_inv in E as (a & b & ->).
+  rewrite has_dollar_paren_app in H. discriminate.
+Qed.
+
+Lemma has_dollar_paren_no_dollar s : ~ In 36 s -> has_dollar_paren s = false.
+Proof.
+  induction s as [|a s IH]; intros H; [reflexivity|].
+  destruct s as [|b s]; [reflexivity|].
+  rewrite has_dollar_paren_cons2.
+  rewrite IH by (intros X; apply H; right; exact X).
+  assert (E : (a =? 36) = false) by (apply N.eqb_neq; intros X; apply H; left; exact X).
+  rewrite E. reflexivity.
+Qed.
+
+Lemma has_dollar_paren_no_paren s : ~ In 40 s -> has_dollar_paren s = false.
+Proof.
+  induction s as [|a s IH]; intros H; [reflexivity|].
+  destruct s as [|b s]; [reflexivity|].
+  rewrite has_dollar_paren_cons2.
+  rewrite IH by (intros X; apply H; right; exact X).
+  assert (E : (b =? 40) = false) by (apply N.eqb_neq; intros X; apply H; right; left; exact X).
+  rewrite E, andb_false_r. reflexivity.
+Qed.
+
 Print Assumptions dollar_loop_splices.
 Print Assumptions dollar_loop_unplannable.
 Print Assumptions dollar_loop_terminates.
 Print Assumptions dot_loop_one.
+Print Assumptions should_do_needs_dollar_paren.
+Print Assumptions has_dollar_paren_no_dollar.
+Print Assumptions has_dollar_paren_no_paren.
